@@ -50,3 +50,30 @@ def fn_script(ctx, fnpath, depth=0):
 def unique_callers(ctx, r, key, target, want, why=None):
     cs = set(ctx.cg.callers(target))
     return r.check(key, cs == set(want), ctx.site(target) if ctx.has_fn(target) else None, built=sorted(cs), expected=sorted(want), why=why or 'who-may-call')
+
+
+_SUB_CACHE = {}
+
+
+def include(ctx, r, modname, rid, pick=None, prefix=None):
+    """Re-use the instances of another property's rule `rid` (evaluated on the same facts) inside rule r."""
+    import importlib
+    key = (id(ctx.facts), modname)
+    if key not in _SUB_CACHE:
+        mod = importlib.import_module('rules.' + modname)
+        sub = type(ctx)(ctx.facts, ctx.info, ctx.prop, ctx.tier, ctx.config)
+        mod.run(sub)
+        _SUB_CACHE[key] = sub
+    sub = _SUB_CACHE[key]
+    n = 0
+    for rr in sub.rules:
+        if rr.rid != rid:
+            continue
+        for i in rr.insts:
+            tail = i.key.split(':', 1)[1]
+            if pick is not None and not any(pk in tail for pk in pick):
+                continue
+            k = (prefix + '/' if prefix else rid + '/') + tail
+            r.insts.append(type(i)(r.rid, r._key(k), i.ok, i.site, i.built, i.expected, i.why, info=i.info, kind=i.kind))
+            n += 1
+    return n
